@@ -162,7 +162,7 @@ pub fn run_c03(cx: &Cx) -> PropResult {
     let acc = parallel(cx, &|shard, acc| {
         // mostly short histories (every pair is then likely to be hit), some long ones
         let strat = if shard % 4 == 3 { evo_case_strategy(6, 40) } else { evo_case_strategy(5, 8) };
-        drive(derive_seed(cx.seed, cx.prop, shard as u64, 0), &strat, per_shard, acc, &|c: &EvoCase| to_json(c), &mut |c, a, r| check_c03(c, a, r));
+        drive(crate::run::tag_seed(derive_seed(cx.seed, cx.prop, shard as u64, 0), 0), &strat, per_shard, acc, &|c: &EvoCase| to_json(c), &mut |c, a, r| check_c03(c, a, r));
     });
     let mut r = PropResult::new(
         acc,
